@@ -89,7 +89,11 @@ def harness(tier, seed):
                                      f"lower_bound_bins={g.lower_bound_bins}, min_bins={space.min_bins}"))
                     if not (np.array_equal(np.array(g), np.array(y2[0])) and g.n_items == y2[0].n_items):
                         viol.append(("decode/not-repeatable", info, "second decoding differs"))
-                    e = float(err.evaluate(g))
+                    try:
+                        e = float(err.evaluate(g))
+                    except Exception as ex:     # noqa: BLE001  (the real code refuses the instance its own decoder produced)
+                        viol.append(("errors/raises-on-decoded-instance", info, repr(ex)))
+                        continue
                     if not (0.0 <= e <= 1.0):
                         viol.append(("errors/range", info, f"Errors={e}"))
                     if len(samples) < 2 and slack > 0:
